@@ -166,13 +166,19 @@ inline bool build(const Spec& sp, NifFile& nif) {
 			break;
 		}
 		case 5: {
-			auto n = std::make_unique<NiNode>();
-			n->name.get() = "LooseNode";
-			hdr.AddBlock(std::move(n));
+			// a loose chain whose child sits at a LOWER index than its (unreferenced) parent, plus an independent loose block
 			auto ed = std::make_unique<NiStringExtraData>();
 			ed->name.get() = "LooseED";
 			ed->stringData.get() = "x";
-			hdr.AddBlock(std::move(ed));
+			uint32_t edId = hdr.AddBlock(std::move(ed));
+			auto n = std::make_unique<NiNode>();
+			n->name.get() = "LooseNode";
+			n->extraDataRefs.AddBlockRef(edId);
+			hdr.AddBlock(std::move(n));
+			auto ed2 = std::make_unique<NiStringExtraData>();
+			ed2->name.get() = "LooseED2";
+			ed2->stringData.get() = "y";
+			hdr.AddBlock(std::move(ed2));
 			break;
 		}
 		case 7: {
